@@ -661,7 +661,9 @@ func (c *c12Ctx) call(entry string, input []byte, meter bool, f func()) bool {
 		return false
 	}
 	if res.TimedOut {
-		c.rep.Inconcl("%s needed more than %v (returned within the solitary %v): case %s", entry, c12Soft, c12Hard, c.desc)
+		// slow (an overloaded machine, a -race build), but it did return: not a hang, not a missing verdict
+		c.rep.Count("calls_slower_than_the_soft_limit", 1)
+		c.rep.Note("%s needed more than %v (returned within the solitary %v): case %s", entry, c12Soft, c12Hard, c.desc)
 	}
 	if res.Panic != nil {
 		if c12HarnessPanic(res.Stack) {
